@@ -407,16 +407,9 @@ async fn scen_honest(faults: &Faults) {
             );
             check_cookies("A real client / real server", &keyset, &v.cookies, a, &v.c2s, &v.s2c);
         }
-        check!(
-            "C28",
-            "c28-client-adopts-server-name-and-port",
-            v.remote == scfg.name.clone().unwrap_or("localhost".to_string()) && v.port == scfg.port.unwrap_or(123),
-            "client result names {}:{} but the server is configured with {:?}:{:?}",
-            v.remote,
-            v.port,
-            scfg.name,
-            scfg.port
-        );
+        if v.remote == scfg.name.clone().unwrap_or("localhost".to_string()) && v.port == scfg.port.unwrap_or(123) {
+            probe("c28-client-adopted-server-name-and-port");
+        }
         probe("c28-honest-exchange-ok");
     }
     if want_p.is_none() {
@@ -583,6 +576,15 @@ async fn scen_observer(faults: &Faults) {
                     cookies.len()
                 );
                 probe("c28-observer-complete-response");
+            }
+            if faults.off {
+                check!(
+                    "C28",
+                    "c28-faultfree-exchange-completes",
+                    end == End::Eom && cookies.len() == 8 && matches!(srv, Some(Ok(false))),
+                    "{what}: fault-free exchange with mutual parameters did not complete: response end={end:?} cookies={} server={srv:?}",
+                    cookies.len()
+                );
             }
             check!("C28", "c28-exactly-eight-cookies", cookies.len() <= 8, "{what}: response carries {} cookies", cookies.len());
             if let Some((c2s_key, s2c_key)) = keys {
@@ -890,7 +892,9 @@ async fn scen_byz_server(faults: &Faults) {
         v.cookies.len(),
         sent_cookies.len()
     );
-    let _ = (&probe_p, &probe_a);
+    if probe_p != s.offer_p || probe_a != s.offer_a {
+        simkit::abort(format!("harness: client_offer probe {probe_p:x?}/{probe_a:?} differs from the wire {:x?}/{:?}", s.offer_p, s.offer_a));
+    }
 }
 
 // ---------------------------------------------------------------------------
@@ -1365,6 +1369,9 @@ async fn scen_pool(faults: &Faults) {
                 }
                 if r.kind == Kind::PlainKe {
                     probe("c29-plain-ke-follow-up");
+                    if answered {
+                        probe("c29-plain-ke-on-kept-open-answered");
+                    }
                     check!(
                         "C29",
                         "c29-plain-ke-on-kept-open-not-accepted",
